@@ -60,7 +60,9 @@ def prepare(tier):
 # curves
 # =====================================================================================================
 GROUPS = ("Steel", "SteelCast", "Al_wrought")
-RM_LADDER = {"Steel": (400.0, 600.0, 1000.0, 1400.0), "SteelCast": (400.0, 600.0, 1000.0), "Al_wrought": (133.0, 270.0, 500.0)}
+# incl. tensile strengths for which the guideline's mean stress sensitivity a_M * 1e-3 * R_m + b_M leaves [0, 1] (Steel 200: < 0;
+# Al_wrought 30: < 0, 1200: > 1): the formula is the formula, the property says "every tensile strength"
+RM_LADDER = {"Steel": (200.0, 400.0, 600.0, 1000.0, 1400.0), "SteelCast": (400.0, 600.0, 1000.0), "Al_wrought": (30.0, 133.0, 270.0, 500.0, 1200.0)}
 P_AS = (0.5, 7.2e-5)
 SYNTH_RAM = [  # admissible: P_Z > P_D > 0, d < 0
     {"P_RAM_Z": 1.0, "P_RAM_D": 1.0 / 64, "d_1": -1.0, "d_2": -0.5},
@@ -209,6 +211,14 @@ def _check_one_curve(kind, prm, calc_N, calc_P, rc, n_knees):
         viol.append((K + "/array-vs-scalar", {"what": "calc_N", "array": arrN.tolist(), "scalar": Np + [INF, INF]}))
     if arrP.shape != (len(n_fin) + 2,) or any(_rel(x, y) > 1e-13 for x, y in zip(arrP, Pn + [p_at_nd, p_at_10nd])):
         viol.append((K + "/array-vs-scalar", {"what": "calc_P", "array": arrP.tolist(), "scalar": Pn + [p_at_nd, p_at_10nd]}))
+    if kind == "RAJ":
+        # the optional argument of calc_N (an endurance value for this one question) must not stick to the curve object
+        calc_N(np.array(p_fin), P_RAJ_D=2.0 * PD)
+        again = np.asarray(calc_N(np.array(p_fin + [PD, 0.5 * PD])), dtype=float)
+        nev += 2
+        if again.shape != arrN.shape or not np.array_equal(again, arrN):
+            viol.append((K + "/calc_N-changed-after-a-question-with-an-explicit-endurance-value",
+                         {"before": arrN.tolist(), "after": again.tolist(), "explicit_P_RAJ_D": 2.0 * PD, "parameters": prm}))
     outcome = tuple(round(math.log(v), 7) for v in Pn) + tuple(round(math.log(v), 7) for v in Np if math.isfinite(v) and v > 0)
     return viol, nev, outcome
 
